@@ -54,3 +54,8 @@ M("c17-wrap-remaps-handshake-eof", "C17", TLS, "TLSStream.wrap", "        await 
   "        try:\n            await wrapper._call_sslobject_method(ssl_object.do_handshake)\n        except EndOfStream:\n            raise BrokenResourceError from None\n", ["R17-b"])
 M("c17-receive-swallows-broken", "C17", TLS, "TLSStream.receive", "        data = await self._call_sslobject_method(self._ssl_object.read, max_bytes)\n",
   "        try:\n            data = await self._call_sslobject_method(self._ssl_object.read, max_bytes)\n        except BrokenResourceError:\n            raise EndOfStream from None\n", ["R17-b"])
+
+# from seeded changes C17/c and C17/d (round 2)
+M("c17-listener-drops-standard-compatible", "C17", TLS, "TLSListener.serve", "                        ssl_context=self.ssl_context,\n                        standard_compatible=self.standard_compatible,\n", "                        ssl_context=self.ssl_context,\n", ["R17-d"])
+M("c17-connectable-drops-hostname", "C17", TLS, "TLSConnectable.connect", "                hostname=self.hostname,\n", "", ["R17-d"])
+M("c17-anext-broken-is-clean-end", "C17", "abc/_streams.py", "ByteReceiveStream.__anext__", "        except EndOfStream:", "        except (EndOfStream, BrokenResourceError):", ["R17-d"])
